@@ -127,7 +127,7 @@ def number_text():
         st.builds(lambda s, d, m, x: f"{s}{d}:{m}:{x}", sign, digits, two, two),
         st.builds(lambda s, d, m, x, f: f"{s}{d}:{m}:{x}.{f}", sign, digits, two, two, frac),
     )
-    return st.one_of(plain, sexa)
+    return st.one_of(plain, sexa, st.sampled_from(["0", "0.0", "-0.0", "00", "1", "-1"]))
 
 
 def base64_text():
@@ -154,7 +154,7 @@ def attr_value(name, max_cp=0x10FFFF):
     if name in VOCAB_ATTRS:
         return st.sampled_from(VOCAB_ATTRS[name])
     if name in ("min", "max", "step", "timeout", "size"):
-        return st.sampled_from(["0", "1", "10.5", "-3", "100", "1e3"])
+        return st.sampled_from(["0", "0", "0.0", "1", "10.5", "-3", "100", "1e3"])
     if name == "format":
         return st.sampled_from(["%f", "%.2f", "%d", "%8.3m", "%10.6m", "%5.1f", ".fits", ""])
     if name == "version":
@@ -241,18 +241,48 @@ def _classes():
     return msgs, parts
 
 
-def build(spec):
-    """Build the library object for a spec through the public constructors."""
+_NUMERIC_ATTRS = ("min", "max", "step", "size", "timeout")
+
+
+def pythonic(text):
+    """The Python number whose str() is exactly `text`, if there is one (callers of the library pass numbers,
+    not only strings: the client hands the user's raw value to OneNumber), else the text itself."""
+    if isinstance(text, str):
+        try:
+            if re.fullmatch(r"-?\d+", text) and str(int(text)) == text:
+                return int(text)
+            if re.fullmatch(r"-?\d+\.\d+", text) and str(float(text)) == text:
+                return float(text)
+        except ValueError:
+            pass
+    return text
+
+
+def build(spec, numeric=False):
+    """Build the library object for a spec through the public constructors. With numeric=True, number texts and
+    numeric attributes are passed as Python ints / floats wherever that is the same value textually."""
     msgs, parts = _classes()
     if spec["kind"] in PARTS and "children" not in spec:
         cls = parts[spec["kind"]]
-        return cls(value=spec.get("text"), **spec["attrs"])
+        attrs = dict(spec["attrs"])
+        value = spec.get("text")
+        if numeric:
+            for a in _NUMERIC_ATTRS:
+                if a in attrs:
+                    attrs[a] = pythonic(attrs[a])
+            if PARTS[spec["kind"]][2] == "number":
+                value = pythonic(value)
+        return cls(value=value, **attrs)
     cls = msgs[spec["kind"]]
     kwargs = dict(spec["attrs"])
+    if numeric:
+        for a in _NUMERIC_ATTRS:
+            if a in kwargs:
+                kwargs[a] = pythonic(kwargs[a])
     if spec.get("text") is not None:
         kwargs["value"] = spec["text"]
     if MESSAGES.get(spec["kind"], (0, 0, 0, None))[3] is not None:
-        kwargs["children"] = tuple(build(c) for c in spec.get("children", []))
+        kwargs["children"] = tuple(build(c, numeric) for c in spec.get("children", []))
     return cls(**kwargs)
 
 
